@@ -3,7 +3,9 @@ import Ekit.Model.Races
 /-! Trace acceptor for C15 (data races). Producer of the lines: harness/races/main.go.
 
     new pair <Type> <M1> <M2> <iters> => clean | race:<frames> | panic:… | hang
-    new stress <Type> <iters>        => clean | …
+    new stress <Type> <iters>        => clean | …      (4 workers, all methods)
+    new seq <Type> <iters>           => clean | …      (writer sequences against readers)
+    new directed <Type> <M1> <M2> <iters> => clean | … (directed search of checklib/props/C15.py)
 
 `spec` mode: the property itself — no data race (and no crash caused by one) was observed for the workload.
 `model` mode: additionally the regenerated access table must know both methods and declare the pair
@@ -28,8 +30,18 @@ def checker (model : Bool) : Checker where
       | none =>
         if model then ((), pairVerdict Ekit.Gen.AccessTable.accessTable Ekit.Gen.AccessTable.entries t m₁ m₂)
         else ((), none)
+    | ["new", "directed", t, m₁, m₂, _] =>
+      match dyn s!"{t}.{m₁} || (mutators of {t} ; {t}.{m₂})" with
+      | some msg => ((), some msg)
+      | none =>
+        if model then ((), pairVerdict Ekit.Gen.AccessTable.accessTable Ekit.Gen.AccessTable.entries t m₁ m₂)
+        else ((), none)
     | ["new", "stress", t, _] =>
       match dyn s!"mixed stress of {t}" with
+      | some msg => ((), some msg)
+      | none => if model then ((), stressVerdict Ekit.Gen.AccessTable.accessTable t) else ((), none)
+    | ["new", "seq", t, _] =>
+      match dyn s!"writer sequences || readers of {t}" with
       | some msg => ((), some msg)
       | none => if model then ((), stressVerdict Ekit.Gen.AccessTable.accessTable t) else ((), none)
     | _ => ((), some s!"bad-op {op}")
